@@ -135,6 +135,14 @@ def gen(tier, rng):
         post = rand_text(rng, rng.choice([0, 0, 5, 40]))
         ops.append("brt %s %s %d %d %s %s %s %d %s" % (hx(pw), hx(pw2), hour, now, ttl, ",".join(socks) if socks else "-",
                                                      hx(pre.encode()), rng.below(5), hx(post.encode())))
+    # "a beacon made with a different password is ignored": also for long passwords that differ only far behind (every byte of the password counts)
+    for n in ([3, 60, 64, 120, 124, 125, 126, 127, 128, 129, 200, 255, 256, 1000] if thorough else [60, 124, 125, 126, 128, 200, 1000]):
+        common = rng.bytes(n)
+        pw, pw2 = common + b"A", common + b"B"
+        hour = rng.below(65536)
+        ops.append("brt %s %s %d %d - %s %s %d %s" % (hx(pw), hx(pw2), hour, hour, ",".join(rand_socks(rng, 2, 1)), hx(rand_text(rng, 5).encode()), 0, hx(rand_text(rng, 5).encode())))
+        ops.append("brt %s %s %d %d - %s %s %d %s" % (hx(pw), hx(pw), hour, hour, ",".join(rand_socks(rng, 2, 1)), hx(rand_text(rng, 5).encode()), 0, hx(rand_text(rng, 5).encode())))
+        ops.append("brt %s %s %d %d - %s - %d -" % (hx(pw + b"C" * 80), hx(pw), hour, hour, ",".join(rand_socks(rng, 1, 0)), 0))
     # decoding of arbitrary / adversarial texts
     for _ in range(20000 if thorough else 1500):
         pw = rng.choice(pws)
@@ -172,6 +180,32 @@ def gen(tier, rng):
                 pieces.append(rand_text(rng, rng.below(30)))
         text = "".join(pieces)
         ops.append("bdec %s %d %s %s" % (hx(pw), hour + rng.choice([0, 0, 1, 30]), rng.choice(["-", "24", "0"]), hx(text.encode())))
+    # adjacent beacons whose markers OVERLAP: the begin marker of the second starts on the last character of the first one's end marker (passwords for which
+    # the two markers allow that are found by search: about one in 62); both peer lists must be found
+    found = 0
+    for i in range(4000):
+        pw = b"ov%d" % i
+        b, e = markers(pw)
+        if b[0] != e[-1] or len(b) < 5 or len(e) < 5:
+            continue
+        found += 1
+        hour = 2000 + rng.below(1000)
+        for _ in range(2):
+            s1, s2, s3 = rand_socks(rng, rng.range(1, 3), rng.below(2)), rand_socks(rng, rng.range(1, 3), rng.below(2)), rand_socks(rng, 1, 0)
+            b1, b2, b3 = py_beacon(pw, hour, s1), py_beacon(pw, hour, s2), py_beacon(pw, hour, s3)
+            text = rand_text(rng, rng.below(8)) + b1[:-1] + b2 + rng.choice(["", rand_text(rng, 3), b3, b3[1:] if b2[-1] == b3[0] else " " + b3]) + rand_text(rng, rng.below(8))
+            ops.append("bdec %s %d - %s %s" % (hx(pw), hour, hx(text.encode()), ";".join(",".join(x) for x in (s1, s2, s3))))
+    # several beacons in one text, separated by anything or by nothing: all of them are found
+    for _ in range(40 if thorough else 10):
+        pw = rng.choice(pws[:10])
+        hour = 2000 + rng.below(1000)
+        lists = [rand_socks(rng, rng.range(1, 4), rng.below(3)) for _ in range(rng.range(2, 4))]
+        text = rand_text(rng, rng.below(10))
+        for l in lists:
+            text += py_beacon(pw, hour, l) + rng.choice(["", " ", rand_text(rng, rng.below(6))])
+        ops.append("bdec %s %d %s %s %s" % (hx(pw), hour, rng.choice(["-", "24"]), hx(text.encode()), ";".join(",".join(x) for x in lists)))
+        if found >= (6 if thorough else 3):
+            break
     for pw in pws[:40]:
         ops.append("benc %s %d %s" % (hx(pw), rng.below(10 ** 6), ",".join(rand_socks(rng, rng.below(5), rng.below(3))) or "-"))
     # long candidate bodies (more than 256 keystream blocks = 4096 bytes: the block counter of the mask loop wraps) and long peer lists
